@@ -37,6 +37,7 @@ fn extreme_input(r: &mut Rng, thorough: bool) -> (Vec<u8>, &'static str) {
         3 => ((0..2000).map(|_| (r.next() & 0xff) as u8).collect(), "binary"),
         4 => (vec![0xff, 0xfe, b'{', b'"', 0xc3, b'"', b':', b'1', b'}', b'\n', 0xe2, 0x82, b'\n', 0xf0, 0x9f], "invalid-utf8"),
         5 => (b"{\"n\":1,\"x\":2}".to_vec(), "no-final-newline"),
+        6 if r.chance(30) => (b"{\"n\":-9223372036854775808,\"x\":-1,\"k\":\"a\"}\n{\"n\":9223372036854775807,\"x\":-1,\"k\":\"a\"}\n{\"n\":-1,\"x\":-9223372036854775808,\"k\":\"b\"}\n{\"n\":0,\"x\":0,\"k\":\"b\"}\n{\"n\":-9223372036854775808,\"x\":1,\"k\":\"c\"}\n{\"n\":9007199254740993,\"x\":1,\"k\":\"c\"}\n{\"n\":6,\"x\":3,\"k\":\"c\"}\n".to_vec(), "extreme-numbers"),
         6 if r.chance(50) => (b"{\"n\":9223372036854775808,\"x\":18446744073709551615,\"m\":18446744073709551616,\"arr\":[9223372036854775808,-9223372036854775809],\"o\":{\"p\":18446744073709551615,\"o\":{\"o\":12345678901234567890}},\"k\":\"a\",\"s\":\"18446744073709551615\"}\n{\"n\":1,\"x\":12345678901234567890,\"k\":\"a\"}\n{\"n\":-9223372036854775809,\"x\":1e19,\"k\":\"b\"}\n".to_vec(), "extreme-numbers"),
         6 => (b"{\"n\":9223372036854775807,\"x\":-9223372036854775808,\"m\":1.7976931348623157e308,\"k\":5e-324,\"s\":\"9223372036854775808\"}\n{\"n\":-9223372036854775808,\"x\":9223372036854775807,\"m\":-1.7976931348623157e308}\n".to_vec(), "extreme-numbers"),
         7 => {
@@ -77,7 +78,10 @@ fn extreme_input(r: &mut Rng, thorough: bool) -> (Vec<u8>, &'static str) {
 /// accepted queries using every operator, option and function with argument values at the
 /// edges of their domains
 fn edge_query(r: &mut Rng) -> String {
-    let q = match r.below(33) {
+    let q = match r.below(36) {
+        33 => "* | json | n / x as q | x / n as p | sum(q), max(p), count".to_string(),
+        34 => "* | json | n / x as q | n * x as m | n - x as d | n + x as a | fields q, m, d, a".to_string(),
+        35 => "* | json | where n / x > 0 or x / n < 0 | count by k".to_string(),
         30 => "* | json | sort by c000".to_string(),
         31 => "* | json | sort by n desc | limit 2".to_string(),
         32 => "* | json | count by c000, c001, c002, n | sort by n".to_string(),
@@ -135,6 +139,9 @@ pub fn check(ctx: &mut Ctx) {
         let (input, kind) = extreme_input(&mut r, ctx.thorough());
         let mut mode = *r.pick(&["json", "json", "logfmt", "legacy", "format={n} {s} {missing}"]);
         let mut q = q;
+        if kind == "extreme-numbers" && r.chance(50) {
+            q = r.pick(&["* | json | n / x as q | x / n as p | sum(q), max(p), count", "* | json | n / x as q | n * x as m | n - x as d | n + x as a | fields q, m, d, a", "* | json | where n / x > 0 or x / n < 0 | count by k", "* | json | n * x as r | sum(r), avg(r), min(r), max(r)"]).to_string();
+        }
         if kind == "wide-rows" && r.chance(70) {
             // wide rows matter where a table is laid out: a sort over the raw rows, legacy output
             q = r.pick(&["* | json | sort by c000", "* | json | sort by n desc | limit 2", "* | json | sort by c001, c000 | fields except s"]).to_string();
